@@ -6,6 +6,8 @@
             a zero exponent it tells apart
   ALIAS-RW  no input element is read in a later statement than a write of an output element that may be the same object
   CONST-IN  no function of the module stores through a parameter it declares const
+  SM-SIGN   every binary-curve scalar-multiplication sibling honours the sign of each scalar parameter
+  OUT-RBW   no coordinate of an output point is read before it was written on every path
 """
 import re
 
@@ -23,6 +25,8 @@ EXPLANATION = (
 
 INV = re.compile(r"^fb_inv_(basic|binar|exgcd|almos|itoht|bruch|ctaia|lower)$")
 EXP = re.compile(r"^fb_exp_(basic|slide|monty)$")
+EBFAM = re.compile(r"^eb_mul(_\w+)?$")
+EBNOT = re.compile(r"_mul_(pre|cof|tab)|_mul_pre_|_mul_fix_tab")
 ALIAS_OK = {
     ("fb_inv_sim", "c", "a", "*", "fb_copy"): "batch inversion in place: element i of the input is read before element i of the output is written, later elements are untouched",
     ("fb_inv_sim", "c", "a", "*", "fb_mul"): "as above (whichever multiplication variant the configuration selects)",
@@ -35,8 +39,11 @@ def analyse(ctx, prog, chk):
     fam = [fn for fn in prog.all if EXP.match(fn.name.split("__")[-1]) and (fn.rfile.startswith("src/fb/") or "selftest" in fn.file)]
     ne = expsib.rule(ctx, prog, chk, fam, re.compile(r"^fb_set_dig$"))
     na, used = alias.rule(ctx, prog, chk, lambda fn: fn.rfile.startswith(("src/fb/", "src/fbx/")), ALIAS_OK)
-    nc = c02.rule_const_in(ctx, prog, chk, prefix=("src/fb/", "src/fbx/", "src/low/easy/relic_fb"))
-    return {"inv": ni, "exp": len(fam), "alias": na, "const": nc}
+    nc = c02.rule_const_in(ctx, prog, chk, prefix=("src/fb/", "src/fbx/", "src/low/easy/relic_fb", "src/eb/"))
+    ebfam = [fn for fn in prog.all if EBFAM.match(fn.name.split("__")[-1]) and not EBNOT.search(fn.name) and (fn.rfile.startswith("src/eb/") or "selftest" in fn.file)]
+    ns = expsib.rule_sm_sign(ctx, prog, chk, ebfam, EBFAM)
+    nr = alias.rule_out_rbw(ctx, prog, chk, lambda fn: fn.rfile.startswith("src/eb/"), re.compile(r"^eb_t\b"))
+    return {"inv": ni, "exp": len(fam), "alias": na, "const": nc, "sign": ns, "rbw": nr}
 
 
 def selfcheck(ctx, prog, chk):
@@ -49,3 +56,5 @@ def run(ctx, chk):
     chk.floor("EXP-SIB", "exponentiation siblings", c["exp"], 3)
     chk.floor("ALIAS-RW", "output/input pairs of the same type", c["alias"], 40)
     chk.floor("CONST-IN", "const pointer parameters of the module", c["const"], 80)
+    chk.floor("SM-SIGN", "scalar parameters of the binary-curve multiplication siblings", c["sign"], 25)
+    chk.floor("OUT-RBW", "output points of binary-curve functions that also take an input point", c["rbw"], 40)
